@@ -246,6 +246,18 @@ func cmdCheck(args []string) int {
 	solveAll(jobs, solveOpts{dir: dir, timeout: timeout, canaryTO: 3 * time.Second, all: *tier == "thorough"}, 16)
 	tSolve := time.Since(t0).Seconds() - tEnc
 	fmt.Printf("timing: load+encode %.1fs, solve %.1fs\n", tEnc, tSolve)
+	// thorough tier: every discharged obligation is put, stand-alone, to two independent solvers (cvc5 and z3 4.8).
+	// An answer "sat" from either contradicts the proof: that is an engine error (never a property verdict).
+	cross := map[string]int{}
+	var crossDisagree []string
+	if *tier == "thorough" {
+		tc := time.Now()
+		cross, crossDisagree = crossCheck(jobs, dir, 16)
+		fmt.Printf("timing: cross-check %.1fs (%v)\n", time.Since(tc).Seconds(), cross)
+		for _, d := range crossDisagree {
+			engineErrs = append(engineErrs, "solver disagreement: "+d)
+		}
+	}
 
 	// classify
 	nObl, nDis, nCan, nCanOK := 0, 0, 0, 0
@@ -402,6 +414,9 @@ func cmdCheck(args []string) int {
 		"samples":                  samples,
 		"slowest_obligations":      slow,
 		"per_obligation_timeout_s": int(timeout.Seconds()),
+	}
+	if *tier == "thorough" {
+		cov["cross_check"] = map[string]interface{}{"what": "each discharged obligation re-submitted stand-alone to cvc5 1.0.3 and z3 4.8.12 (3 s each); 'sat' would be a disagreement", "verdicts": cross, "disagreements": crossDisagree}
 	}
 	if *extraJSON != "" {
 		if data, err := os.ReadFile(*extraJSON); err == nil {
